@@ -1,7 +1,8 @@
 (* C20 — property theorems only.  Each is closed by [exact] of a lemma and followed by
    Print Assumptions; Examples show hypotheses are satisfiable / refutation witnesses. *)
 From Coq Require Import List NArith Bool.
-From V Require Import C20.Model C20.Proofs C20.Proofs_overlay C20.Proofs_txfold C20.Proofs_cas.
+From V Require Import C20.Model C20.Proofs C20.Proofs_overlay C20.Proofs_txfold C20.Proofs_cas
+  C20.Proofs_heap_base C20.Proofs_heap_reader C20.Proofs_heap_refine.
 Import ListNotations.
 Open Scope N_scope.
 
@@ -167,11 +168,12 @@ Theorem C20_lookup_exact : forall (v : chain) (h : N),
 Proof. intros v h. split; [exact (tx_lookup_lemma v h)| exact (rc_lookup_lemma v h)]. Qed.
 Print Assumptions C20_lookup_exact.
 
-(* Immutability of views.  In the functional model a view is a value: nothing a later op does can
-   occur in it — this is trivially true here and is exactly where the model is weaker than the Go
-   code (aliasing of nodes, entries, slices and maps is observed by the harness' deep fingerprints,
-   not proved).  What the model does say: views already handed out are kept unchanged by every later
-   event of any schedule, and taking a snapshot does not disturb the store. *)
+(* Immutability of views, list level.  In the list model a view is a value: nothing a later op
+   does can occur in it, so at this level the statement is true by construction (views already
+   handed out are kept by every later event of any schedule; taking a snapshot does not disturb
+   the store).  The statement with content is the heap-level one at the end of this file:
+   C20_heap_writes_fresh_only / C20_view_stable_heap (aliasing of nodes, entries, slices and maps
+   is modelled there and the frame invariant is proved). *)
 Theorem C20_view_immutable : forall (evs : list ev) (s : cstate),
   exists fresh, c_views (crun s evs) = fresh ++ c_views s.
 Proof. exact views_kept. Qed.
@@ -246,3 +248,139 @@ Example ex_schedule :
   single_writer false evs = true /\
   map (fun v => map (fun e => length (e_items e)) v) (c_views (crun cinit evs)) = [[2%nat]; [1%nat]; [1%nat]; []].
 Proof. vm_compute. split; reflexivity. Qed.
+
+(* ====================================================================================== *)
+(* Heap level (Heap.v): the same operations over a store of objects addressed by ids, with the
+   allocation, the aliasing and the in-place writes of chain_storage.go / sn2core / StateDiff.Merge.
+   [hfinal ops] is the heap-level state after any script of ApplyUpdate / AdvanceTo /
+   SnapshotForBlock / PreConfirmedStateAt / PreConfirmedStateBeforeIndexAt calls; [abs_ops ops]
+   are the list-model operations it stands for; [denote_view h v] is the list-model chain a view
+   handle {head, length} denotes in heap h; [ceq] relates chains that differ only in how a storage
+   diff is laid out (nested maps vs. one flat first-match-wins list: same writes per contract, in
+   the same order). *)
+
+(* (a) Refinement.  After every operation sequence the published chain of the heap-level state
+   denotes the chain the list model computes ... *)
+Theorem C20_heap_refines : forall ops : list hop,
+  ceq (denote_view (hs_heap (hfinal ops)) (hs_cur (hfinal ops))) (final (abs_ops ops)).
+Proof. exact heap_refines_lemma. Qed.
+Print Assumptions C20_heap_refines.
+
+(* ... and every result (error class / no-op / new chain and affected entry / changed flag / view
+   handed out) of every further operation denotes the list model's result. *)
+Theorem C20_heap_step_refines : forall (ops : list hop) (o : op),
+  out_rel (hs_heap (fst (hstep (hfinal ops) (HOp o)))) (snd (hstep (hfinal ops) (HOp o)))
+          (snd (step (final (abs_ops ops)) o)).
+Proof. exact heap_step_refines_lemma. Qed.
+Print Assumptions C20_heap_step_refines.
+
+(* Reader creation: the overlay (one merged state diff + one merged class map, all fresh objects)
+   built by PreConfirmedStateAt / PreConfirmedStateBeforeIndexAt on any view handed out reads as the
+   list model's [state_at] / [state_before_index] on the chain that view denotes (so
+   C20_overlay_spec etc. apply to it). *)
+Theorem C20_heap_reader_refines : forall (ops : list hop) (vi : nat) (b : N),
+  let s := hfinal ops in
+  match snd (hstep s (HStateAt vi b)) with
+  | HOState r => reader_rel (hs_heap (fst (hstep s (HStateAt vi b)))) r
+                            (state_at (denote_view (hs_heap s) (nth_view s vi)) b) b
+  | _ => False
+  end.
+Proof. exact heap_reader_lemma. Qed.
+Print Assumptions C20_heap_reader_refines.
+
+Theorem C20_heap_reader_before_refines : forall (ops : list hop) (vi : nat) (b i : N),
+  let s := hfinal ops in
+  match snd (hstep s (HStateBefore vi b i)) with
+  | HOState r => reader_rel (hs_heap (fst (hstep s (HStateBefore vi b i)))) r
+                            (state_before_index (denote_view (hs_heap s) (nth_view s vi)) b i) b
+  | _ => False
+  end.
+Proof. exact heap_reader_before_lemma. Qed.
+Print Assumptions C20_heap_reader_before_refines.
+
+(* (b) The frame invariant, over reachable sets.  In every reachable state, everything reachable
+   from the published chain and from every view handed out so far lies below the allocation
+   pointer, and that part of the heap refers only to itself ... *)
+Theorem C20_heap_views_closed : forall (ops : list hop) (v : view),
+  In v (hs_cur (hfinal ops) :: hs_views (hfinal ops)) ->
+  below (h_next (hs_heap (hfinal ops))) (oref (fst v)) /\
+  closed (h_next (hs_heap (hfinal ops))) (hs_heap (hfinal ops)).
+Proof. exact heap_views_closed_lemma. Qed.
+Print Assumptions C20_heap_views_closed.
+
+(* ... and every operation (writer or reader) leaves every object below the allocation pointer
+   exactly as it was: it writes only to objects it allocated itself. *)
+Theorem C20_heap_writes_fresh_only : forall (ops : list hop) (o : hop) (i : oid),
+  i < h_next (hs_heap (hfinal ops)) ->
+  hget (hs_heap (fst (hstep (hfinal ops) o))) i = hget (hs_heap (hfinal ops)) i.
+Proof. exact heap_writes_fresh_only_lemma. Qed.
+Print Assumptions C20_heap_writes_fresh_only.
+
+(* Hence: every view handed out at any point (and every chain ever published) denotes, in every
+   LATER heap, the same chain as when it was handed out - whatever the poller, head moves and
+   readers do afterwards. *)
+Theorem C20_view_stable_heap : forall (ops1 ops2 : list hop) (v : view),
+  In v (hs_cur (hfinal ops1) :: hs_views (hfinal ops1)) ->
+  denote_view (hs_heap (hfinal (ops1 ++ ops2))) v = denote_view (hs_heap (hfinal ops1)) v.
+Proof. intros ops1 ops2 v I. exact (proj1 (view_stable_heap_lemma ops1 ops2 v I)). Qed.
+Print Assumptions C20_view_stable_heap.
+
+(* ... namely the list model's snapshot of the chain published when SnapshotForBlock was called. *)
+Theorem C20_snapshot_stable_heap : forall (ops1 : list hop) (n : N) (ops2 : list hop),
+  let v := h_snapshot (hs_heap (hfinal ops1)) (hs_cur (hfinal ops1)) n in
+  ceq (denote_view (hs_heap (hfinal (ops1 ++ HOp (Snapshot n) :: ops2))) v) (snapshot (final (abs_ops ops1)) n).
+Proof. exact snapshot_stable_lemma. Qed.
+Print Assumptions C20_snapshot_stable_heap.
+
+(* The list-model theorems about reachable chains hold for what the heap denotes, e.g. *)
+Theorem C20_heap_contiguous : forall ops : list hop,
+  let c := denote_view (hs_heap (hfinal ops)) (hs_cur (hfinal ops)) in
+  contiguous_from (oldest c) c = true.
+Proof. exact heap_contiguous_lemma. Qed.
+Print Assumptions C20_heap_contiguous.
+
+Theorem C20_heap_snapshot_aligned : forall (ops : list hop) (hd : N),
+  view_aligned hd (denote_view (hs_heap (hfinal ops))
+                     (h_snapshot (hs_heap (hfinal ops)) (hs_cur (hfinal ops)) (hd + 1))) = true.
+Proof. exact heap_snapshot_aligned_lemma. Qed.
+Print Assumptions C20_heap_snapshot_aligned.
+
+(* ---------- the heap-level statements are not vacuous ---------- *)
+Definition dS (v : N) : diff := mkDiff [((16, 1), v)] [] [] [] [] [] [7].
+Definition hex_ops : list hop :=
+  [ HOp (Apply (UBlock (mkUBlock 11 [mkItem 101 1 101 1 (dS 5)] 0)) 3 0 3 [(40, 400)]);
+    HOp (Snapshot 3);
+    HOp (Apply (UDelta (mkUDelta 11 [mkItem 102 2 102 2 (dS 6)] 0)) 3 1 3 []);   (* same contract again *)
+    HOp (Snapshot 3);
+    HOp (Apply (UBlock (mkUBlock 12 [] 0)) 4 0 3 []);
+    HStateAt 1 4;
+    HOp (AdvanceTo 4);
+    HOp (Snapshot 4) ].
+
+(* three views are out, of lengths 1, 1 and 1 (after the head advance); the first still reads the
+   first write, the second the delta's *)
+Example hex_views :
+  map (fun v => map (fun e => d_storage (e_diff e)) (denote_view (hs_heap (hfinal hex_ops)) v))
+      (rev (hs_views (hfinal hex_ops)))
+  = [ [[((16, 1), 5)]]; [[((16, 1), 6); ((16, 1), 5)]]; [[]] ].
+Proof. vm_compute. reflexivity. Qed.
+
+(* the delta did NOT copy the class map (no new classes): old and new entry share it by reference *)
+Example hex_class_map_shared :
+  let h := hs_heap (hfinal hex_ops) in
+  map (fun v => map (fun e => p_cls (gpcv h e)) (walk_entries h (fst v) (snd v)))
+      (firstn 2 (rev (hs_views (hfinal hex_ops))))
+  = [ [Some 0]; [Some 0] ].
+Proof. vm_compute. reflexivity. Qed.
+
+(* The heap level CAN express an in-place write to an object a published view reaches (what the
+   list model cannot): writing the inner storage map of the first block changes what the first view
+   denotes.  The theorems above say the modelled operations never do this. *)
+Theorem C20_heap_mutation_expressible : exists (h : heap) (v : view) (i : oid) (o : obj),
+  denote_view (hset h i o) v <> denote_view h v.
+Proof.
+  exists (hs_heap (hfinal (firstn 2 hex_ops))), (nth 0 (hs_views (hfinal (firstn 2 hex_ops))) empty_view),
+         7, (OMapN [(1, 99)]).
+  vm_compute. discriminate.
+Qed.
+Print Assumptions C20_heap_mutation_expressible.
